@@ -814,3 +814,37 @@ func VerifCSSNumberShape(n int) {
 	vAssert(rcEq(ounit, []byte(unit)) || len(ounit) == 0 && a.zero && unit == "px", "same unit")
 	vReach("end")
 }
+
+// properties whose value grammar takes an <integer> (CSS Values: an optional sign and decimal digits, no fraction, no
+// exponent; `1e3` is a <number> and makes the declaration invalid): CSS 2.1 z-index / orphans / widows / counter-*,
+// Flexbox order, Multi-column column-count / columns, Grid line placement.
+var verifCSSIntegerProps = [][2]string{
+	{"z-index", ""}, {"order", ""}, {"column-count", ""}, {"columns", ""}, {"orphans", ""}, {"widows", ""}, {"counter-reset", "x "}, {"counter-increment", "x "},
+	{"grid-row", ""}, {"grid-column", ""}, {"grid-row-start", ""}, {"grid-row-end", ""}, {"grid-column-start", ""}, {"grid-column-end", ""}, {"grid-area", ""},
+}
+
+// VerifCSSIntegerProp (C04): an integer of n symbolic digits with an optional sign in an <integer> property stays an
+// <integer> of the same value.
+func VerifCSSIntegerProp(n int) {
+	p := verifCSSIntegerProps[vChoice("prop", len(verifCSSIntegerProps))]
+	d := vBytes("d", n)
+	for _, c := range d {
+		vAssume('0' <= c && c <= '9')
+	}
+	sign := []string{"", "-", "+"}[vChoice("sign", 3)]
+	num := append([]byte(sign), d...)
+	val := append([]byte(p[1]), num...)
+	out := verifDecl(p[0], val, &Minifier{KeepCSS2: vBool("KeepCSS2")})
+	vAssert(len(out) >= len(p[1]) && rcEq(out[:len(p[1])], []byte(p[1])), "counter name kept")
+	onum := out[len(p[1]):]
+	k := 0
+	if k < len(onum) && (onum[k] == '-' || onum[k] == '+') {
+		k++
+	}
+	vAssert(k < len(onum), "an integer has digits")
+	for ; k < len(onum); k++ {
+		vAssert(refDigit(onum[k]), "an <integer> consists of an optional sign and digits (no exponent, no fraction): "+p[0]+":"+string(onum))
+	}
+	vAssert(refSame(refParse(num), refParse(onum)), "same integer value")
+	vReach("end")
+}
